@@ -42,11 +42,13 @@ func iteS(c bool, a, b string) string {
 // definition, comment, empty, flags, prefix or suffix line emits nothing, a regular line is
 // emitted left-trimmed followed by one newline.
 //@ contract Parser.Parse
-//@   tags C17 C19
+//@   tags C17 C19 C10 C09
 //@   opt scan-complete C17
 //@   results buf wrote
 //@   loop 2 invariant len(p.Prefixes) == atLoopEntry(len(p.Prefixes))
 //@   loop 3 invariant len(p.Suffixes) == atLoopEntry(len(p.Suffixes))
+//@   checks[C10,C09] format-only-never-expands-definitions: implies(formatOnly && old(len(p.variables)) == 0, !called(expandDefinitions))
+//@   loop 0 invariant[C10,C09] implies(formatOnly, len(p.variables) == atLoopEntry(len(p.variables)))
 //@   loop 0 body[C09,C10] format-only-keeps-every-line: implies(formatOnly, bufContent(p.dest) == atHead(bufContent(p.dest))+line+"\n")
 //@   loop 0 body[C07,C05] no-entry-for-definition-and-meta-lines: implies(!formatOnly && (parsedLine.parsedType == definition || parsedLine.parsedType == comment || parsedLine.parsedType == empty || parsedLine.parsedType == flags || parsedLine.parsedType == prefix || parsedLine.parsedType == suffix), bufContent(p.dest) == atHead(bufContent(p.dest)))
 //@   loop 0 body[C05,C07] regular-line-emitted-in-place: implies(!formatOnly && parsedLine.parsedType == regular, bufContent(p.dest) == atHead(bufContent(p.dest))+line+"\n")
@@ -101,12 +103,12 @@ func SpecCutReplace(entry, match, replacement string) string {
 // entry stands in the include file (so different entries never share an order value, and
 // sorting by it restores F's relative order whatever the map iteration did).
 //@ contract buildinclusionLineMap
-//@   tags C17 C19 C06
+//@   tags C17 C19 C06 C03
 //@   opt scan-complete C17
 //@   results m defs
-//@   loop 0 invariant[C06] 0 <= scanPos(includeScanner) && scanPos(includeScanner) <= len(scanLines(includeScanner)) && index == scanPos(includeScanner)
-//@   loop 0 invariant[C06] forallStr(func(k string) bool { return implies(mapHas(includeMap, k), 0 <= includeMap[k].order && includeMap[k].order < scanPos(includeScanner) && scanLines(includeScanner)[includeMap[k].order] == k && includeMap[k].line == k) })
-//@   checks[C06] order-is-a-position-of-the-entry: forallStr(func(k string) bool { return implies(mapHas(m, k), 0 <= m[k].order && m[k].order < len(scanLines(includeScanner)) && scanLines(includeScanner)[m[k].order] == k && m[k].line == k) })
+//@   loop 0 invariant[C06,C03] 0 <= scanPos(includeScanner) && scanPos(includeScanner) <= len(scanLines(includeScanner)) && index == scanPos(includeScanner)
+//@   loop 0 invariant[C06,C03] forallStr(func(k string) bool { return implies(mapHas(includeMap, k), 0 <= includeMap[k].order && includeMap[k].order < scanPos(includeScanner) && scanLines(includeScanner)[includeMap[k].order] == k && includeMap[k].line == k) })
+//@   checks[C06,C03] order-is-a-position-of-the-entry: forallStr(func(k string) bool { return implies(mapHas(m, k), 0 <= m[k].order && m[k].order < len(scanLines(includeScanner)) && scanLines(includeScanner)[m[k].order] == k && m[k].line == k) })
 
 // ---- C05: includes -----------------------------------------------------------------------------
 // buildIncludeString: the included file is parsed with NO definitions of the including file
@@ -161,11 +163,15 @@ func SpecBlockMiddle(prefixes []string, body string, hasSuffixes bool) string {
 //@   checks[C03,C06] sorted-before-joined: implies(len(inclusionLines) >= 2, called(Sort))
 //@   ensures[C06] empty: implies(len(inclusionLines) == 0, r == "")
 
+// buildPairMap: every replacement is stored exactly as written in the list (the element after
+// its key), nothing is trimmed or unquoted: `""` stays the two-character text that
+// replaceSuffixes understands as "delete".
 //@ contract buildPairMap
 //@   tags C06 C19
 //@   opt termination C19
 //@   results r
 //@   loop 0 invariant 0 <= i && i%2 == 0 && len(list)%2 == 0
+//@   loop 0 body[C06] the-pair-is-stored-as-written: mapHas(pairMap, list[atHead(i)]) && pairMap[list[atHead(i)]] == list[atHead(i)+1]
 //@   loop 0 decreases len(list) - i
 
 // ---- C02 (E): only the flags i and s can reach the leading flag group
